@@ -346,7 +346,9 @@ Proof.
     + simpl. unfold comp_lrow, dc_labs. rewrite Hl. reflexivity.
     + inversion H as [|? ? Hi _]; subst. rewrite <- (dcomp_wf_row d0 i Hd Hi).
       unfold dc_labs; rewrite Hl; reflexivity.
-  - apply bind_ok in H as (labs & Hlabs & H). injection H as <-. cbn [dt_comps dt_rows dt_labels] in *.
+  - apply bind_ok in H as (labs & Hlabs & H).
+    destruct (existsb _ labs); [discriminate|].
+    injection H as <-. cbn [dt_comps dt_rows dt_labels] in *.
     apply mapM_labels in Hlabs. subst labs.
     exists d0, (d1 :: rest), (label_product (map dc_labs (d0 :: d1 :: rest)) ":").
     split; [reflexivity|]. split; [reflexivity|]. intros i Hi.
